@@ -37,6 +37,11 @@ def main(argv=None) -> int:
             from . import selftest as st
 
             selftest = st.run_for(prop, args.repo)
+            from . import invariance
+
+            inv = invariance.run_for(prop, args.repo)
+            selftest["invariance"] = inv
+            selftest.setdefault("failures", []).extend(inv["failures"])
         if args.replay:
             with open(args.replay) as fh:
                 rp = json.load(fh)
